@@ -344,16 +344,10 @@ class Interval(NominalValueMixin):
                 lo, hi = self.lo * other, self.hi * other
             else:
                 lo, hi = self.hi * other, self.lo * other
-        elif otherType == "ndarray":  # check self and other have same shape
-            lo, hi = numpy.empty(self._lo.shape), numpy.empty(self._lo.shape)
-            if len(other.shape) == 0:
-                self.__mul__(float(other))  # safety net for ndarrays with no shape
+        elif otherType == "ndarray":  # elementwise, broadcasting a scalar interval
             other_positive = other >= 0
-            other_negative = other_positive == False
-            lo[other_positive] = self.lo[other_positive] * other[other_positive]
-            hi[other_positive] = self.hi[other_positive] * other[other_positive]
-            lo[other_negative] = self.hi[other_negative] * other[other_negative]
-            hi[other_negative] = self.lo[other_negative] * other[other_negative]
+            lo = numpy.where(other_positive, self.lo * other, self.hi * other)
+            hi = numpy.where(other_positive, self.hi * other, self.lo * other)
         elif otherType == "Interval":
             lo, hi = multiply(self, other)
         else:
@@ -376,17 +370,12 @@ class Interval(NominalValueMixin):
                 lo, hi = self.lo / other, self.hi / other
             else:
                 lo, hi = self.hi / other, self.lo / other
-        elif otherType == "ndarray":
-            lo, hi = numpy.empty(self._lo.shape), numpy.empty(self._lo.shape)
+        elif otherType == "ndarray":  # elementwise, broadcasting a scalar interval
             if any(other.flatten() == 0):
                 raise ZeroDivisionError
             other_positive = other > 0
-            other_negative = other_positive == False
-            lo[other_positive] = self.lo[other_positive] / other[other_positive]
-            hi[other_positive] = self.hi[other_positive] / other[other_positive]
-            lo[other_negative] = self.hi[other_negative] / other[other_negative]
-            hi[other_negative] = self.lo[other_negative] / other[other_negative]
-            pass
+            lo = numpy.where(other_positive, self.lo / other, self.hi / other)
+            hi = numpy.where(other_positive, self.hi / other, self.lo / other)
         elif otherType == "Interval":
             lo, hi = divide(self, other)
         else:
